@@ -1,5 +1,6 @@
 import QclibModel.Proofs.McxLinear
 import QclibModel.Proofs.McxReal
+import QclibModel.Proofs.McxAoLinear
 /-
   C05 — multi-controlled X gates of qclib/gates/mcx.py, toffoli.py, util.py are exact permutations
   that restore every borrowed qubit, whatever state it is in.
@@ -198,5 +199,111 @@ example (ψ : State ℂ) :
       sem circ ψ = mcxIdeal (patLits 9 (fun i => i) (some (parseCs "110100101"))) [9] ψ := by
   refine ⟨_, rfl, ?_⟩
   exact C05_linear realAngles pi8_real 9 _ _ rfl ψ
+
+/-! ### `action_only=True`
+
+With `action_only=True` the V-chain stops after its first pass: the targets are flipped correctly
+but the borrowed qubits are left "dirty".  The theorems below say exactly what is left: the ideal
+MCX followed (in time) by a signed relabelling `S = sp σ π` (`(S ψ) b = σ b · ψ (π b)`) that is an
+involution, changes only the borrowed wires and reads only the first `k-1` controls — it is the
+sweep `W` of the proof of `C05_vchain`.  qiskit's `.inverse()` of the circuit (`Circ.inv`: reversed
+list, `u(θ,φ,λ) ↦ u(-θ,-λ,-φ)`) is `S` followed by the ideal MCX, so a pair
+`chain ; G ; chain.inverse()` around any `G` that commutes with `S` (any gate on wires `S` does not
+see: the last control, the targets, spectators) is the pair of ideal MCX gates around `G`
+(`C05_action_only_bracket`).  This is how `Ldmcsu` (eigenbasis path), `LdMcSpecialUnitary` and
+`Qdmcu` use the flag (C04). -/
+
+section actionOnly
+variable [AddCommGroup Θ] [RotLaws Θ R]
+
+/-- **C05_vchain_action_only** (`McxVchainDirty(k, nt, ctrl_state, action_only=True)`, every
+`k ≥ 1`, `nt ≥ 1`, every accepted pattern, every injective wire layout, every state).  There is a
+signed relabelling `S = sp σ π` with
+* `⟦circuit⟧ ψ = S (MCX ψ)` and `⟦circuit.inverse()⟧ ψ = MCX (S ψ)` (`MCX` = the ideal
+  multi-target multi-controlled X of `C05_vchain`);
+* `S` is an involution (`Invol`: `π ∘ π = id`, `σ b · σ (π b) = 1`);
+* `S` neither reads nor writes any wire other than the controls `c 0 … c (k-2)` and the borrowed
+  qubits `a 0 … a (k-3)` (`FreeAt`) — the last control, all targets and all spectators are free;
+* `π` changes no wire other than the borrowed qubits.
+For `k ≤ 2` and `k = 3, nt = 1` the code ignores the flag and `S` is the identity. -/
+theorem C05_vchain_action_only (o : McxAngles Θ) (hp : Pi8 R o) (k nt : Nat) (c a t : Nat → Nat)
+    (L : VLayout k nt c a t) (cs : Option (List Bool)) (circ : Circ Θ)
+    (h : vchainW o k nt c a t cs false true = some circ) :
+    ∃ (σ : Bits → R) (π : Bits → Bits),
+      (∀ ψ : State R, sem circ ψ
+        = sp σ π (mcxIdeal (patLits k c cs) ((List.range nt).map t) ψ))
+      ∧ (∀ ψ : State R, sem (Circ.inv circ) ψ
+        = mcxIdeal (patLits k c cs) ((List.range nt).map t) (sp σ π ψ))
+      ∧ Invol σ π
+      ∧ (∀ q, (∀ i, i < k - 1 → c i ≠ q) → (∀ i, i < k - 2 → a i ≠ q) → FreeAt q σ π)
+      ∧ (∀ b q, (∀ i, i < k - 2 → a i ≠ q) → (π b) q = b q) :=
+  vchain_action_only o hp k nt c a t L cs circ h
+
+/-- **C05_action_only_bracket.**  `chain(action_only) ; mid ; chain(action_only).inverse()` equals
+`MCX ; mid ; MCX` with the ideal MCX, for every middle circuit that commutes with the leftover
+relabelling `S` — in particular (`C05_sp_comm`) for every multi-controlled one-qubit gate whose
+target and controls are wires `S` does not see. -/
+theorem C05_action_only_bracket (o : McxAngles Θ) (hp : Pi8 R o) (k nt : Nat)
+    (c a t : Nat → Nat) (L : VLayout k nt c a t) (cs : Option (List Bool)) (circ : Circ Θ)
+    (h : vchainW o k nt c a t cs false true = some circ) :
+    ∃ (σ : Bits → R) (π : Bits → Bits),
+      (∀ q, (∀ i, i < k - 1 → c i ≠ q) → (∀ i, i < k - 2 → a i ≠ q) → FreeAt q σ π)
+      ∧ ∀ (mid : Circ Θ), (∀ φ : State R, sem mid (sp σ π φ) = sp σ π (sem mid φ)) →
+        ∀ ψ : State R, sem (circ ++ mid ++ Circ.inv circ) ψ
+          = mcxIdeal (patLits k c cs) ((List.range nt).map t)
+              (sem mid (mcxIdeal (patLits k c cs) ((List.range nt).map t) ψ)) :=
+  vchain_action_only_bracket o hp k nt c a t L cs circ h
+
+omit [RotSem Θ R] [AddCommGroup Θ] [RotLaws Θ R] in
+/-- A multi-controlled one-qubit gate on wires a signed relabelling does not see commutes with
+it. -/
+theorem C05_sp_comm (σ : Bits → R) (π : Bits → Bits) (lits : List (Nat × Bool)) (M : Mat2 R)
+    (t : Nat) (ht : FreeAt t σ π) (hl : ∀ cv ∈ lits, FreeAt cv.1 σ π) (ψ : State R) :
+    applyMcu lits M t (sp σ π ψ) = sp σ π (applyMcu lits M t ψ) :=
+  applyMcu_sp_comm σ π lits M t ht hl ψ
+
+/-- **C05_linear_action_only** (`LinearMcx(k, ctrl_state, action_only=True)`, every `k ≥ 1`, every
+accepted pattern, every state): the circuit is the ideal MCX followed by an involutive signed
+relabelling `S` that does not see the target `k`, the ancilla `k+1` or any wire above (for
+`k ≥ 6` it is the sweep of the last of the four sub-chains, on borrowed *control* wires; for
+`k ≤ 5` the identity), and its `.inverse()` is `S` followed by the ideal MCX. -/
+theorem C05_linear_action_only (o : McxAngles Θ) (hp : Pi8 R o) (k : Nat)
+    (cs : Option (List Bool)) (circ : Circ Θ) (h : linearMcx o k cs true = some circ) :
+    ∃ (σ : Bits → R) (π : Bits → Bits),
+      (∀ ψ : State R, sem circ ψ = sp σ π (mcxIdeal (patLits k (fun i => i) cs) [k] ψ))
+      ∧ (∀ ψ : State R, sem (Circ.inv circ) ψ
+          = mcxIdeal (patLits k (fun i => i) cs) [k] (sp σ π ψ))
+      ∧ Invol σ π ∧ ∀ q, k ≤ q → FreeAt q σ π :=
+  linear_action_only o hp k cs circ h
+
+end actionOnly
+
+/-- Non-vacuity of `C05_vchain_action_only`: seven controls with pattern `1011010`, five borrowed
+qubits, three targets, over `ℂ` with the real angles (general branch: `S` is the genuine sweep).
+The last control (wire 6), the targets (12, 13, 14) and a spectator (99) are free. -/
+example : ∃ circ, vchain realAngles 7 3 (some (parseCs "1011010")) false true = some circ ∧
+    ∃ (σ : Bits → ℂ) (π : Bits → Bits),
+      (∀ ψ : State ℂ, sem circ ψ
+        = sp σ π (mcxIdeal (patLits 7 (fun i => i) (some (parseCs "1011010"))) [12, 13, 14] ψ))
+      ∧ (∀ ψ : State ℂ, sem (Circ.inv circ) ψ
+        = mcxIdeal (patLits 7 (fun i => i) (some (parseCs "1011010"))) [12, 13, 14] (sp σ π ψ))
+      ∧ Invol σ π ∧ FreeAt 6 σ π ∧ FreeAt 12 σ π ∧ FreeAt 99 σ π := by
+  refine ⟨_, rfl, ?_⟩
+  obtain ⟨σ, π, h1, h2, h3, h4, -⟩ :=
+    C05_vchain_action_only (R := ℂ) realAngles pi8_real 7 3 _ _ _ (vlayout_std 7 3)
+      (some (parseCs "1011010")) _ rfl
+  exact ⟨σ, π, h1, h2, h3, h4 6 (by intros; omega) (by intros; omega),
+    h4 12 (by intros; omega) (by intros; omega), h4 99 (by intros; omega) (by intros; omega)⟩
+
+/-- Non-vacuity of `C05_linear_action_only`: nine controls (split branch) with a pattern. -/
+example : ∃ circ, linearMcx realAngles 9 (some (parseCs "110100101")) true = some circ ∧
+    ∃ (σ : Bits → ℂ) (π : Bits → Bits),
+      (∀ ψ : State ℂ, sem circ ψ
+        = sp σ π (mcxIdeal (patLits 9 (fun i => i) (some (parseCs "110100101"))) [9] ψ))
+      ∧ Invol σ π ∧ ∀ q, 9 ≤ q → FreeAt q σ π := by
+  refine ⟨_, rfl, ?_⟩
+  obtain ⟨σ, π, h1, -, h3, h4⟩ :=
+    C05_linear_action_only (R := ℂ) realAngles pi8_real 9 (some (parseCs "110100101")) _ rfl
+  exact ⟨σ, π, h1, h3, h4⟩
 
 end Qclib
